@@ -10,7 +10,9 @@
 // sources other than generic data (Sources: mixed Go representations, fresh
 // *Config objects that stay in the case as stand-alone handles, the *Config
 // of an existing handle, generic data embedding such a config), path
-// separators other than "." (Seps). Stand-alone configs live in the same
+// separators other than "." (Seps), rejected operations (OverIdx, BadMerge:
+// reject.go), Go struct representations of initial / attached / merged trees
+// (Structs: structs.go). Stand-alone configs live in the same
 // pool as child handles: the model of a Merge copies, so the model trees of
 // source and receiver are independent and any later write that shows up on
 // the other side is reported by the per-handle comparison of the property.
@@ -1408,15 +1410,17 @@ func Gen(t *rapid.T, g *GenCfg) Case {
 			}
 		}
 	}
+	initStructs := g.Structs > 0 && c.Init != nil && rapid.IntRange(0, 9).Draw(t, "initstructs") < g.Structs
+	if initStructs && rapid.IntRange(0, 2).Draw(t, "initstructlist") == 0 {
+		// (before the keys are respelled: two keys of one object never denote the same setting)
+		c.Init.Put(rapid.SampledFrom(g.Trees.Keys).Draw(t, "initstructname"), genStructList(t, g))
+	}
 	if g.Dotted > 0 && c.PathSep && c.Init != nil && rapid.IntRange(0, 9).Draw(t, "initdotted") < g.Dotted {
 		c.Init = FoldKeys(t, c.Init, g.Respell, "init")
 	}
 	respellKeys(t, g, c.Init)
-	if g.Structs > 0 && c.Init != nil && rapid.IntRange(0, 9).Draw(t, "initstructs") < g.Structs {
+	if initStructs {
 		c.InitRepr = true
-		if rapid.IntRange(0, 2).Draw(t, "initstructlist") == 0 {
-			c.Init.Put(rapid.SampledFrom(g.Trees.Keys).Draw(t, "initstructname"), genStructList(t, g))
-		}
 		assignStructReprs(t, c.Init)
 	}
 	all := append(append([]Addr{}, used...), usedVia...)
